@@ -477,7 +477,7 @@ func main() {
 		r.Fatal("tiny shape in band")
 	}
 	hs = append(hs, tiny)
-	n := r.N(300, 20000)
+	n := r.N(300, 8000)
 	for i := 0; i < n; i++ {
 		rng := r.Rand(1, uint64(i))
 		hs = append(hs, randomHistory(rng, ttls[i%len(ttls)]))
@@ -585,7 +585,7 @@ func concurrentArm(r *mon.Run) {
 	var inputs [][]byte
 	sizes := []int{1, 2, 64}
 	for _, size := range sizes {
-		b, _ := json.Marshal(cInput{Seed: r.Seed(), Size: size, OpsPer: r.N(3000, 400000), StreamsPer: r.N(10, 300)})
+		b, _ := json.Marshal(cInput{Seed: r.Seed(), Size: size, OpsPer: r.N(3000, 150000), StreamsPer: r.N(10, 150)})
 		inputs = append(inputs, b)
 	}
 	outs, err := mon.RunIsolated("concurrent", inputs, mon.ChildOpt{Timeout: 40 * time.Minute, BatchSize: 1})
